@@ -40,6 +40,8 @@ CLAIMED = {
          "Seeded base scenarios that between them start every asynchronous operation kind are executed cleanly to learn their event boundaries, then re-executed once per boundary k (all of them up to 160, stride-sampled beyond), per object with an operation outstanding at k and per applicable intervention (cancel, close, destroy, start another operation of the same kind). Tracked handlers establish: never invoked from inside an initiating or cancelling call, at most once, exactly once and with operation_aborted on the intervened object unless it completed in the same instant, never destroyed uninvoked while the simulation runs; ASan, UBSan, libstdc++ assertions and (second flavour) library asserts catch dangling references.", "3.4"),
  "C12": ("lifecycle", "fault_enumeration", "deterministic simulation with crash-point enumeration: every event boundary x {close, cancel, destroy, move, throw} under ASan/UBSan/assertions",
          "The same base scenarios over loss-free and lossy routes (a bottleneck behind a fast hop, so segments are dropped long after they were sent), re-executed once per boundary k and per live object with close, cancel, destroy, move-construct-then-destroy-source (idle objects only), and once per boundary with 'the next user handler throws'. Oracle: no signal, sanitizer report, libstdc++ or library assertion, no exception other than the injected one; handler discipline; an unrelated transfer and timer in the same simulation complete intact; the injected exception leaves run() and everything is destroyed without further calls. Both an NDEBUG (as shipped) and an asserts-on build are run.", "3.12"),
+ "C18": ("apps_proxy", "exploration", "deterministic simulation: HTTP proxy between generated clients and scripted origin servers, every cut of the client byte stream",
+         "Seeded search over request sequences (IPv4 / bracketed IPv6 literals and named hosts, default and explicit ports incl. 80 and 65535, with/without Host, 0-7 other headers in odd spellings, 8 methods, pipelined or waiting), all cuts of the client byte stream spaced in virtual time, origins that answer (framed or raw replies of 0-250 kB in chunks), refuse, do not exist, do not resolve or resolve to nothing, successive and overlapping clients, early client exits and stop(), over loss-free routes with MTU 8-9000. The harness origins record every byte: request line in origin form, header set, added Host, order; every byte a client reads is compared with the concatenated origin replies; 503, closes for malformed input and next-client acceptance are checked.", "3.18"),
 }
 
 NOT_YET = "not claimed yet: the engine for this property is still under construction in this tree"
